@@ -163,7 +163,7 @@ type statement struct {
 
 func (s *statement) n() int { return len(s.zs) }
 
-var labelKinds = []string{"empty", "vt", "test", "2kB", "random-bytes"}
+var labelKinds = []string{"empty", "vt", "test", "2kB", "random-bytes", "around-a-power-of-two", "64kB+"}
 
 func genLabel(rng *rand.Rand) (string, string) {
 	k := rng.Intn(len(labelKinds))
@@ -176,6 +176,15 @@ func genLabel(rng *rand.Rand) (string, string) {
 		return "test", labelKinds[k]
 	case 3:
 		return string(bytes.Repeat([]byte("verkle-label-"), 160)), labelKinds[k]
+	case 5:
+		// lengths around the hash block size and around 1 kB / 4 kB (buffer sizes)
+		b := make([]byte, []int{55, 56, 64, 1024, 4096}[rng.Intn(5)]+rng.Intn(3)-1)
+		rng.Read(b)
+		return string(b), labelKinds[k]
+	case 6:
+		b := make([]byte, 65536+rng.Intn(5000))
+		rng.Read(b)
+		return string(b), labelKinds[k]
 	default:
 		b := make([]byte, 1+rng.Intn(40))
 		rng.Read(b)
@@ -295,7 +304,7 @@ func (s *statement) describe() map[string]interface{} {
 	if len(lab) > 24 {
 		lab = lab[:24] + "..."
 	}
-	return map[string]interface{}{"n": s.n(), "label": fmt.Sprintf("%q", lab), "index_pattern": s.idxKind, "zs_prefix": fmt.Sprint(zs), "polynomial_kinds": kinds,
+	return map[string]interface{}{"n": s.n(), "label": fmt.Sprintf("%q", lab), "label_bytes": len(s.label), "index_pattern": s.idxKind, "zs_prefix": fmt.Sprint(zs), "polynomial_kinds": kinds,
 		"commitment_representation": s.repKind, "pointer_pattern": s.ptrKind, "distinct_polynomials": len(s.polys)}
 }
 
